@@ -14,7 +14,8 @@
 (***************************************************************************)
 EXTENDS Naturals, Integers, Sequences, FiniteSets, TLC
 
-\* A field: [w |-> bits, pre |-> bits, post |-> bits, kind |-> "bits"|"bool"|"int"|"arr"|"enum"]
+\* A field: [w |-> bits, pre |-> bits, post |-> bits, kind |-> "bits"|"bool"|"int"|"arr"|"enum"|"nested"]
+\* (a nested field also has inner |-> the layout of the struct it holds, TotalBits(inner) = w)
 
 RECURSIVE StartOf(_, _)
 StartOf(L, i) == IF i = 1 THEN L[1].pre ELSE StartOf(L, i - 1) + L[i - 1].w + L[i - 1].post + L[i].pre
@@ -38,6 +39,7 @@ FieldValid(L, i) ==
        /\ (L[i].kind = "arr" => w % 8 = 0 /\ w >= 8)
        /\ (L[i].kind = "bits" => w <= 8)
        /\ (L[i].kind = "enum" => w <= 8 \/ w = 16)
+       /\ (L[i].kind = "nested" => w % 8 = 0 /\ w >= 8)       \* (its own layout is judged where it is used)
 
 Valid(L) == Len(L) >= 1 /\ \A i \in 1..Len(L) : FieldValid(L, i)
 
@@ -162,5 +164,20 @@ OneBits(bytes) ==
     IN F[Len(bytes)]
 UndeclaredZero ==
     finished => OneBits(Pack(layout, AllOnes(layout))) = SumW(layout, Len(layout))
+
+\* a struct of whole bytes used as a field of another struct: its image sits in the outer image unchanged, and
+\* taking the outer image apart gives its fields back
+NestedTransparent ==
+    finished /\ TotalBits(layout) % 8 = 0 =>
+        LET w == TotalBits(layout)
+            outer == <<[w |-> 3, pre |-> 1, post |-> 4, kind |-> "bits"],
+                       [w |-> w, pre |-> 0, post |-> 0, kind |-> "nested"],
+                       [w |-> 8, pre |-> 0, post |-> 0, kind |-> "bits"]>>
+            img == Pack(layout, AllOnes(layout))
+            whole == Pack(outer, <<<<5>>, img, <<129>>>>)
+        IN /\ Valid(outer)
+           /\ UnpackField(outer, whole, 2) = img
+           /\ Unpack(layout, UnpackField(outer, whole, 2)) = AllOnes(layout)
+           /\ UnpackField(outer, whole, 1) = <<5>> /\ UnpackField(outer, whole, 3) = <<129>>
 
 =============================================================================
